@@ -44,6 +44,15 @@ type harness struct {
 
 func hexOf(s string) string { return hx.Hex([]byte(s)) }
 
+func inInts(xs []int, k int) bool {
+	for _, x := range xs {
+		if x == k {
+			return true
+		}
+	}
+	return false
+}
+
 // score10 renders a float score as the integer score*10 ("nan" for NaN /
 // out-of-range garbage) and reports whether it is a one-decimal number.
 func score10(f float64) (string, int, bool) {
@@ -98,7 +107,7 @@ func (h *harness) v2(s string, near bool) {
 		}
 		switch {
 		case k == sp.Score10:
-		case sp.Tie && k == sp.Score10-1:
+		case k == sp.Score10-1 && inInts(sp.Alt, k):
 			// listed finding: an exact half-way argument of round_to_1_decimal
 			// is rounded down because the float64 product falls short of it.
 			r.KnownSeen(kV2Tie, fmt.Sprintf("input=%q implementation=%d/10 published-equations=%d/10", s, k, sp.Score10))
@@ -221,7 +230,7 @@ func (h *harness) v3(s string, near bool) {
 		switch {
 		case ks == "nan":
 		case k == sp.Score10:
-		case minor == 0 && sp.Tie && k == sp.Score10+1:
+		case minor == 0 && k == sp.Score10+1 && inInts(sp.Alt, k):
 			// listed finding: Roundup of an exact one-decimal argument goes
 			// one tenth up because the float64 product lands above it.
 			r.KnownSeen(kV30Round, fmt.Sprintf("input=%q implementation=%d/10 published-equations=%d/10", s, k, sp.Score10))
